@@ -23,7 +23,9 @@ CLAIMED = {
         text='Coq theorems (props/C16.v): validation accepts exactly the well-formed tables and otherwise raises '
              'ValueError; for the rows of any ordered subset the seven classes are the positions whose row encodes them, '
              'pairwise disjoint, duplicate-free and covering. GeoAssignments.__init__ is re-translated on every run '
-             '(bridge by reflexivity); tables built from generated specifications (incl. all tables of 1-3 legal rows and '
+             '(bridge by reflexivity), and so is get_eligible_assignments (gen/Gen_EligAssign.v over a frame of (ID, flags) rows: '
+             'index mode = the model\'s position sets, ID mode membership, whole table, ValueError / KeyError cases; C16_translated_*), '
+             'whose generated definition is also evaluated on every query and compared with the implementation; tables built from generated specifications (incl. all tables of 1-3 legal rows and '
              'a malformed stream) are run through GeoEligibility and the model and compared; the partition property is '
              'also evaluated directly on the answers.',
         note='Trusted: Coq kernel + vm_compute, translator, pandas glue of GeoEligibility (modelled; tied by execution), '
